@@ -314,6 +314,8 @@ struct Corpus {
         auto voc = std::make_shared<std::vector<std::string>>();
         for (auto &t : tg) for (auto &v : srcv) voc->push_back(t + " := " + v);
         for (const char *c : {"pr2(x, a[1])", "pr2(a[2], x)", "pr2(g, a[2])", "pr3(x, g, a[3])", "y := f2(x, a[2])", "y := f2(a[3], a[3])", "y := f3(1, 2, a[3])", "y := f3(x, a[3], a[2])", "1(a[2], 0)", "1(x, a[0])", "y := lf()", "y := lf() + a[0]"}) voc->push_back(c);
+        for (const char *c : {"if x = 5 then y := 1 else skip", "if x = 6 then skip else y := 2", "if a[1] = 11 then a[2] := 1 else a[3] := 2", "while y < 2 do y := y + 1", "if g < x then skip else skip",
+                              "if (x = 5) and (a[2] = 12) then g := a[2] else g := a[3]", "while a[0] > 8 do a[0] := a[0] - 1", "if id(x) = 5 then x := a[1] else x := a[2]"}) voc->push_back(c);
         auto mk = [voc](const std::vector<size_t> &ix) {
           std::string body; for (auto k : ix) body += (*voc)[k] + "; ";
           return std::string("var g; var h; array a[4];\nfunc id(val n) is return n\nfunc f2(val u, val v) is return (u + u) + ((v + v) + v)\nfunc f3(val u, val v, val w) is return (u + (v + v)) + ((w + w) + (w + w))\n"
